@@ -542,6 +542,15 @@ inline void TotalOrderSort(py::list& list) {  // NOLINT[runtime/references]
 
 inline Py_ALWAYS_INLINE py::list DictKeys(const py::dict& dict) {
     const scoped_critical_section cs{dict};
+    if (PyODict_Check(dict.ptr())) [[unlikely]] {
+        // NOTE: `PyDict_Keys` ignores the order maintained by `OrderedDict` itself
+        // (e.g. after `OrderedDict.move_to_end()`), iterate over the `OrderedDict` instead.
+        PyObject* const keys = PySequence_List(dict.ptr());
+        if (keys == nullptr) [[unlikely]] {
+            throw py::error_already_set();
+        }
+        return py::reinterpret_steal<py::list>(keys);
+    }
     return py::reinterpret_steal<py::list>(PyDict_Keys(dict.ptr()));
 }
 
